@@ -157,13 +157,16 @@ class MarkovChainLevyCopula(LevyProcess):
                 ]
             ]
         ).T
-        V = 0.0 if self.model.jump_of_finite_variation() else 1.0
+        # each margin is in its own tilde representation: the cut-off depends on the variation of that margin
+        cut_offs = [
+            0.0 if model.jump_of_finite_variation() else 1.0 for model in models
+        ]
         mu_tilde = np.array(
             [
                 [
                     model.levy_triplet.nu.integrate_against_x(-np.inf, -V)
                     + model.levy_triplet.nu.integrate_against_x(V, np.inf)
-                    for model in models
+                    for model, V in zip(models, cut_offs)
                 ]
             ]
         ).T
